@@ -296,7 +296,7 @@ type verdict struct {
 
 var last verdict
 
-func check(c Case) *core.Violation {
+func checkOnce(c Case) *core.Violation {
 	last = verdict{root: c.Root}
 	if c.Root == nil || len(c.Styles) == 0 {
 		return core.V("harness|empty-case", "no root / styles")
@@ -396,6 +396,42 @@ func check(c Case) *core.Violation {
 		}
 	}
 	return nil
+}
+
+// nondetSig: ONE text evaluated several times against ONE context gives different results.  cty
+// compares the attributes of two objects in Go map order and stops at the first unknown or unequal
+// one ({a = unknown, b = 1} == {a = 2, b = 3} is unknown or false from run to run); unknowns reach such
+// a comparison not only from the environment (exempted above) but also from ForExpr.Value's dry run
+// of an `if` clause with DynamicVal placeholders for the loop variables - also over an empty
+// collection, where the dry run is the only evaluation of the clause.  Whatever oracle notices the
+// difference, it is reported under this one signature.
+const nondetSig = "nondeterministic|one-text-evaluates-differently-from-run-to-run"
+
+func check(c Case) *core.Violation {
+	v := checkOnce(c)
+	if v == nil || !(strings.HasPrefix(v.Sig, "meta|") || strings.HasPrefix(v.Sig, "scope|") || strings.HasPrefix(v.Sig, "diff|")) {
+		return v
+	}
+	ctx, _, bv := buildCtx(c, c.Styles[len(c.Styles)-1])
+	if bv != nil {
+		return v
+	}
+	for i := range c.Styles {
+		first, rv := run(c, i, ctx)
+		if rv != nil {
+			return v
+		}
+		for k := 0; k < 24; k++ {
+			o, rv := run(c, i, ctx)
+			if rv != nil {
+				return v
+			}
+			if o.hasErr != first.hasErr || (!o.hasErr && !o.val.RawEquals(first.val)) {
+				return core.V(nondetSig, "the same text evaluated twice against the same context: err=%v (%s) %s, then err=%v (%s) %s (first reported as %s)\nsource: %s", first.hasErr, first.firstE, show(first.val), o.hasErr, o.firstE, show(o.val), v.Sig, first.src)
+			}
+		}
+	}
+	return v
 }
 
 // mentionsUnknownVar: the root or a function body has a FREE variable (scope-aware: a name
